@@ -15,7 +15,12 @@ def sig_fn(rj):
             kind = "graph"
     ev = rj.event
     prev = rj.segment[rj.index - 1].get("op") if rj.index > 0 else None
-    return {"kind_at": kind, "ix": rj.segment[0].get("ix"), "directed": rj.segment[0].get("directed"), "prev_op": prev,
+    extra = {}
+    if ev.get("op") == "de":
+        mx = rj.segment[0].get("maxix", 0)
+        st = ev.get("st", {})
+        extra = {"mutated": ev.get("mutated"), "at_limit": len(st.get("nd", [])) == mx or len(st.get("ed", [])) == mx, "fmt": ev.get("fmt"), "to": ev.get("to")}
+    return {**extra, "kind_at": kind, "ix": rj.segment[0].get("ix"), "directed": rj.segment[0].get("directed"), "prev_op": prev,
             "retfull": ev.get("ret") if ev.get("op") != "obs" else None}
 
 
